@@ -362,8 +362,7 @@ op('intersection(b1)', ['g', 'same'], lambda a, b: etl.intersection(a, b, buffer
 op('diff[0]', ['g', 'same'], lambda a, b: etl.diff(a, b)[0], ('sorted', 'stateful'), zero=_zero_b)
 op('diff[1]', ['g', 'same'], lambda a, b: etl.diff(a, b)[1], ('sorted', 'stateful'), zero=_zero_a)
 op('recordcomplement', ['g', 'perm'], lambda a, b: etl.recordcomplement(a, b), ('sorted', 'stateful'), zero=_zero_a)
-op('recorddiff[0]', ['g', 'perm'], lambda a, b: etl.recorddiff(a, b)[0], ('sorted', 'stateful'),
-   zero=lambda ts: [(r[1], r[2], r[0]) for r in _datarows(ts[1])])
+op('recorddiff[0]', ['g', 'perm'], lambda a, b: etl.recorddiff(a, b)[0], ('sorted', 'stateful'), zero=_zero_b)
 op('recorddiff[1]', ['g', 'perm'], lambda a, b: etl.recorddiff(a, b)[1], ('sorted', 'stateful'), zero=_zero_a)
 op('hashcomplement', ['g', 'same'], lambda a, b: etl.hashcomplement(a, b), ('stream:0',), zero=_zero_a)
 op('hashcomplement(strict)', ['g', 'same'], lambda a, b: etl.hashcomplement(a, b, strict=True), ('stream:0',),
